@@ -95,6 +95,23 @@ func init() {
 		}
 		return "differs " + hexOf(out)
 	}
+	// membership in / size of the harness's own enumeration of legal move shapes
+	opTable["shape"] = func(s *Session, a []string) string {
+		size := atoi(a[0])
+		if size < 3 || size > 8 {
+			return "0"
+		}
+		m := decMove(a[1])
+		for _, x := range shapesCache[size] {
+			if x == m {
+				return "1"
+			}
+		}
+		return "0"
+	}
+	opTable["shapecount"] = func(s *Session, a []string) string {
+		return strconv.Itoa(len(legalShapes(atoi(a[0]))))
+	}
 	opTable["fmtmove"] = func(s *Session, a []string) string { return hexOf(ptn.FormatMove(decMove(a[0]))) }
 	opTable["fmtmovelong"] = func(s *Session, a []string) string { return hexOf(ptn.FormatMoveLong(decMove(a[0]))) }
 	opTable["fmtserver"] = func(s *Session, a []string) string { return hexOf(playtak.FormatServer(decMove(a[0]))) }
@@ -102,7 +119,6 @@ func init() {
 	opTable["parseserver"] = func(s *Session, a []string) string { return fmtMoveR(playtak.ParseServer(unhex(a[0]))) }
 	// the three round trips on the real code; identical values (==, not Move.Equal) are demanded
 	opTable["rtmove"] = func(s *Session, a []string) string {
-		_ = strconv.Itoa
 		m := decMove(a[1])
 		good := func(r tak.Move, err error) bool { return err == nil && r == m }
 		x := good(ptn.ParseMove(ptn.FormatMove(m)))
